@@ -36,9 +36,16 @@ def load(path):
     return [json.loads(l) for l in open(path)]
 
 
+HANGS = []
+
+
 def run_harness(binp, wd, name, args, env=None):
     out = os.path.join(wd, name)
     rc, log = vlib.sh([binp, "--out", out] + args, timeout=3000, env=env)
+    if rc == 3 and os.path.exists(out + ".hang"):
+        # the harness's watchdog: a POST was not answered within 20 s
+        HANGS.append(json.load(open(out + ".hang")))
+        return []
     if rc != 0:
         raise vlib.Infra("c13 harness failed: " + log[-2000:])
     return load(out)
@@ -72,7 +79,7 @@ def run(tier, replay):
                                     env={"VERIF_SEED": str(vlib.seed() * 1000 + k)})
 
     terms = [case_term(r["resolved"]) for r in rows]
-    model = vlib.coq_eval(PROP, "From GW Require Import Base Gate.", "run_case", terms, shard=150)
+    model = vlib.coq_eval(PROP, "From GW Require Import Base Gate.", "run_case", terms, shard=150) if terms else []
 
     kinds = collections.Counter()
     distinct = set()
@@ -92,6 +99,9 @@ def run(tier, replay):
         if r["oracle"]:
             oracle_fail.append({"case": r["case"], "failures": r["oracle"], "impl": r["obs"]})
 
+    for c in HANGS:
+        oracle_fail.append({"case": c, "failures": ["a POST of this session was never answered (handler hung > 20 s)"],
+                            "impl": None})
     for f in oracle_fail[:3]:
         V.violation({"property": PROP, "kind": "oracle", "what": f["failures"], "case": f["case"],
                      "impl": f["impl"], "replay_cmd": "./check C13 --replay <this file>"})
